@@ -7,6 +7,11 @@ Import ListNotations.
 Definition complaints := Eval vm_compute in
   flat_complaints (check_program (contracts_C04 program) program entries lit_callees unsupported).
 Print complaints.
+(* check-then-act: no function writes a guarded field in one critical section on the strength of a read made in an earlier,
+   released critical section of the same lock (LockLang.cta; structural, see the comment there) *)
+Definition cta_complaints := Eval vm_compute in
+  flat_complaints (cta_program (contracts_C04 program) (reachable program entries)).
+Print cta_complaints.
 Definition stats := Eval vm_compute in
   (List.length program, List.length (reachable program entries), List.length entries).
 Print stats.
@@ -33,3 +38,6 @@ Theorem generated_broker_no_data_race :
     (a = EA (Wr f) /\ reads_or_writes f b) \/ (b = EA (Wr f) /\ reads_or_writes f a) -> False.
 Proof. exact (program_no_data_race _ _ _ _ _ broker_race_free). Qed.
 Print Assumptions generated_broker_no_data_race.
+
+Theorem broker_no_check_then_act : cta_program (contracts_C04 program) (reachable program entries) = [].
+Proof. vm_compute. reflexivity. Qed.
